@@ -82,6 +82,7 @@ impl<Output: BinaryOutput> BinaryOutput for SerializationContext<Output> {
     }
 }
 
+#[cfg_attr(kani, repr(u8))]
 pub enum StoreStringResult {
     StringAlreadyStored { id: StringId },
     StringIsNew { new_id: StringId, value: String },
